@@ -67,6 +67,8 @@ def chk_of(t):
         return 'chk_z'
     if t == 'bool':
         return 'chk_b'
+    if t == 'str':
+        return 'chk_str'
     if t in ('tail', 'none'):
         return 'chk_unit'
     if t == 'hdr':
@@ -130,6 +132,10 @@ def canon_result(r, t):
         return int(r)
     if t == 'bool':
         return bool(r)
+    if t == 'str':
+        if not isinstance(r, str):
+            raise TypeError('expected str, got %r' % (r,))
+        return r
     if t in ('tail', 'none'):
         return None
     if t == 'hdr':
